@@ -153,7 +153,10 @@ func runWhitelists(c *Ctx, p *wlPatch) error {
 	d := lib.NewPathDict()
 	// the model evaluates the full run and at most modelRuns whitelisted runs (the empty set,
 	// the full set, then every k-th); the oracle above has judged all of them
-	const modelRuns = 9
+	modelRuns := 9
+	if c.Tier == "quick" {
+		modelRuns = 6
+	}
 	inModel := map[int]bool{0: true}
 	if len(runs)-1 <= modelRuns {
 		for i := range runs {
@@ -429,7 +432,7 @@ func compOf(dp *lib.DecodedPatch) string { return fmt.Sprintf("%s-q%d", dp.Algo,
 
 func c17Real(c *Ctx) error {
 	r := c.Rng.Fork()
-	n := nFor(c, 12, 150, 10)
+	n := nFor(c, 8, 150, 10)
 	for i := 0; i < n; i++ {
 		cr := r.Fork()
 		maxSize := 2*lib.BS + 17
